@@ -422,3 +422,33 @@ CLAIM.update({
         ref="DESIGN.md section 4, C20", technique="bounded-exhaustive enumeration of the configuration product + property-based testing (rapid) of boundary spellings; reference activation table as oracle",
         note="child = this test binary re-executed with ExtraFiles; LISTEN_PID is set by the child itself"),
 })
+
+PLAN["C17"] = dict(
+    quick=[*shards("TestC17Cells", 8), dict(test="TestC17Rapid", checks=250)],
+    thorough=[*shards("TestC17Cells", 8), *shards("TestC17Rapid", 12, checks=3000)],
+)
+
+LEVEL.update({"C17": "exploration"})
+RULE.update({
+    "C17": "case = one cell of {client: receive, Call, Send (write blocked by a peer that does not read, 8 MB), raw Read / ReadBytes / Write on the "
+           "connection returned by Upgrade; handler: raw Read / ReadBytes / Write on Call.Conn under a context derived in the handler; service: the "
+           "per-connection read under the serving context} x transport {unix, tcp, in-memory pipe, bridge subprocess (client side)} x trigger "
+           "{cancel, deadline, none = control} x instant {context already dead, blocked with nothing in flight, after a prefix of a frame was "
+           "delivered, trigger fires only after completion}; the harness owns both ends and sends every byte itself. Every cell once (255 cells, "
+           "bounded-exhaustive), then rapid-generated variations of the prefix length, the number of follow-up frames and their segmentation. "
+           "Oracle: the operation returns within 5 s of the trigger (expected: milliseconds) with a context/timeout error when nothing could "
+           "complete, or with the right data when everything was available; afterwards operations on the SAME connection with a live context - "
+           "alternating both read primitives - must not fail with a timeout and must deliver, exactly and in order, every byte the peer sent after "
+           "the cancelled call returned (bytes in flight at the cancellation are don't-care: dropped or kept); no library goroutine is left. "
+           "Non-trivial = the trigger fired while the operation was really blocked (not returned after 15 ms) or inside a frame.",
+})
+ASSUME.update({"C17": ["'promptly' = within 5 s (15 s on the confirming retry), one-sided", "a control-arm operation that fails with its own generous deadline because the machine was too slow is counted inconclusive, not a violation",
+                        "bytes in flight at the instant of cancellation may be consumed and dropped (the statement says 'from that point on')"]})
+CLAIM.update({
+    "C17": dict(
+        text="Every cell of operation x transport x trigger x instant is run with the harness owning both ends of the connection; return latency, "
+             "error kind, goroutine census and the byte-exact delivery of follow-up traffic with a live context are checked; rapid varies prefix "
+             "lengths, follow-up frames and segmentation.",
+        ref="DESIGN.md section 4, C17", technique="bounded-exhaustive cell product + property-based testing (rapid) with harness-owned data arrival; oracle = bounded return, error class, stream suffix relation, goroutine census",
+        note="found and fixed: bridge pipe ignored deadlines (30e87b2)"),
+})
